@@ -5,7 +5,7 @@ import core, lib
 from core import call_matches, op_place, op_local, backward_slice
 from props import shared
 
-LEVEL = 'proof'
+LEVEL = 'other'
 FLOOR = 76      # 70% of the 109 obligation instances derived on the tree the rules were last reviewed against
 EXPLANATION = ('Decided on all MIR paths: a transaction is published to the commit overlay and queued under one write guard; a log record '
                'enters the log overlay under one guard after being appended; entries leave a layer only after entering the next one and only '
@@ -128,6 +128,7 @@ def key_tail_check(ctx, p):
 def run(ctx):
     shared.atomic_publication(ctx, '1')
     shared.handover_order(ctx, '2')
+    shared.deferral_keeps_commit_order(ctx, '2')    # commit order also holds when a tree dereference in the same transaction is postponed
     shared.wal_confinement(ctx, '3')
     shared.owner_id_removal(ctx, '3o')
     shared.overlay_entries_replaced_whole(ctx, '3ow', MAPS=shared.COMMIT_OVERLAY_MAPS, what='commit', key=' commit-overlay-entries-replaced-whole', floor=2)
